@@ -601,3 +601,37 @@ func SdkLogBad(cfg sdkConfig, debug bool) sdkConfig {
 	}
 	return cfg
 }
+
+// ---- running maximum seeded by a constant ----
+
+func RunMaxBad(m map[int64]string) string {
+	var latest int64
+	for k := range m {
+		if k > latest {
+			latest = k
+		}
+	}
+	return m[latest]
+}
+
+func RunMaxFlagOk(m map[int64]string) string {
+	var latest int64
+	first := true
+	for k := range m {
+		if first || k > latest {
+			latest = k
+			first = false
+		}
+	}
+	return m[latest]
+}
+
+func RunMaxMinOk(m map[int64]string) string {
+	latest := int64(-9223372036854775808)
+	for k := range m {
+		if k > latest {
+			latest = k
+		}
+	}
+	return m[latest]
+}
